@@ -157,7 +157,7 @@ PROPS = {
         level_text='Proved (Verus, unbounded): absence of arithmetic overflow/underflow and of out-of-range slice ranges or indices in every function under contract -- the write path, varint, metadata, block decoding, the cursors, and the bookkeeping of the sorter\'s two-ended buffer (Entries::insert with its recursive doubling, reallocate_buffer, fits, remaining, ... : every `buffer[a..][..b]`, `copy_from_slice`, `cast_slice_mut` and `bounds[i] = ..` is a discharged precondition, for all entry sizes incl. larger than the buffer). The three unsafe primitives behind the buffer (raw alloc / slice::from_raw_parts in new, deref, deref_mut, plus align_to) are ASSUMED contracts in Verus and checked on the real unsafe code by Kani: layout agreement alloc/dealloc (bounded sizes), fits() exactness (bounded), and refusal of every unrepresentable size (complete).',
         level_note=ASSUME_PHYS + '; EntryBoundAlignedBuffer::{new,deref,deref_mut} and align_to: assumed contracts (unsafe), Kani-checked bounded; Entries::iter / sort_by_key (closures over cast slices) outside the verified set; lifetime-extending transmutes are not decided by any installed verifier (typing argument)',
         technique='Verus safety obligations (overflow, bounds, slice ranges) on extracted real code + Kani harnesses on the unsafe allocation primitives',
-        kani=[dict(name='c17_buffer_layout_alloc_dealloc', kind='bounded', bound='requested sizes 1..=4097'), dict(name='c17_fits_exact_no_overflow', kind='bounded', bound='capacity <= 256, any consistent (entries_len, bounds_count), key/value <= 8 bytes'), dict(name='c17_buffer_new_refuses_unrepresentable_sizes', kind='complete', bound='none: every size > isize::MAX - 15 (loop-free)')], native=[], witness=[],
+        kani=[dict(name='c17_buffer_layout_alloc_dealloc', kind='bounded', bound='requested sizes 1..=4097'), dict(name='c17_fits_exact_no_overflow', kind='bounded', bound='capacity <= 256, any consistent (entries_len, bounds_count), key/value <= 8 bytes'), dict(name='c17_buffer_new_refuses_unrepresentable_sizes', kind='complete', bound='none: every size > isize::MAX - 15 (loop-free)')], native=[N('verif_merge::c17_growth_by_repeated_doubling', 'bounded: 45 (90 thorough) runs; one entry of 200 KB .. 5 MB (17 MB thorough) needing 1..7 doublings of the 128 KiB initial buffer, bytes in key / value / both, after 0 / 3 / 400 small inserts')], witness=[],
         unproved=['EntryBoundAlignedBuffer unsafe primitives (assumed contracts; Kani bounded)', 'Entries::iter / sort_by_key slicing', 'lifetime-extending transmutes'], assumptions=[ASSUME_PHYS],
         explanation='index/overflow obligations of the real bookkeeping code are discharged by Verus for all sizes; only the raw allocation primitives are assumed'),
     'C18': dict(
